@@ -25,6 +25,10 @@ structure Project where
   gen : String → Bool × List Report        -- `generate_cfg`: (ok, reports incl. the error)
   lookups : String → List String           -- `ctx.template(..)`/`ctx.function(..)` calls of the passes
   passes : String → List Report
+  /-- `analyze_main_component` (since the `fix:` 1121aa8): `none` when the program has no main component in a file named on the
+      command line (or one with a tuple or anonymous component), otherwise what CFG generation and the two instantiation passes report
+      for the statement `component main = T(...)` -/
+  mainReports : Option (List Report)
 
 structure St where
   cfgs : String → Bool                      -- is a CFG cached under this name?
@@ -66,12 +70,12 @@ def analyzeDef (p : Project) (s : St) (n : String) : List Report × St :=
     (cached ++ p.passes n, s)
   else (cached, s)
 
-/-- the batches handed to the writer, in order: parse reports, then one batch per definition -/
+/-- the batches handed to the writer, in order: parse reports, then one batch per definition, then the main component -/
 def batches (p : Project) (order : List String) : List (List Report) :=
   let rec go (s : St) : List String → List (List Report)
     | [] => []
     | n :: rest => let (rs, s) := analyzeDef p s n; rs :: go s rest
-  p.parseReports :: go St.init order
+  p.parseReports :: (go St.init order ++ p.mainReports.toList)
 
 /-- everything offered to the writer -/
 def offered (p : Project) (order : List String) : List Report := (batches p order).flatten
